@@ -21,7 +21,7 @@ def hist_of(*key):
     h = 0
     for k in key:
         h = (h * 131 + (int(k) if not isinstance(k, str) else sum(map(ord, k)))) % 1000003
-    return h % 10
+    return h % 11
 
 
 def empty_via_history(h, init, signed, n, f, **cfg):
@@ -74,6 +74,26 @@ def mk(codes, signed, n, f, dirty_ok=False, **cfg):
         h = 1       # indexing / flatten deep-copy the configuration, so an op_out target would (rightly) be a copy: not this route
     if h in (8, 9):
         return primed(h, codes, signed, n, f, **cfg)
+    if h == 10:
+        # the codes arrive as the outcome of storing integers far beyond 64 bits (exactly: the overflow action folds them
+        # onto the codes under test): under wrap any code, under saturate the two bounds. Whatever carrier such a store
+        # used internally, the object is an ordinary holder of its codes afterwards.
+        lo = -(1 << (n - 1)) if signed else 0
+        hi = (1 << (n - 1)) - 1 if signed else (1 << n) - 1
+        if cfg.get('overflow', 'saturate') == 'wrap':
+            far = [c + (1 << (n + 70)) * (1 if k % 2 else -1) for k, c in enumerate(codes)]
+        elif all(c in (lo, hi) for c in codes) and lo != hi:
+            far = [c + (1 << 90) if c == hi else c - (1 << 90) for c in codes]
+        else:
+            far = None
+        if far is not None:
+            x = Fxp(None if len(codes) == 1 else np.zeros(len(codes), dtype=int), signed, n, f, **cfg)
+            x.set_val(far[0] if len(codes) == 1 else np.array(far, dtype=object), raw=True)
+            if not dirty_ok:
+                x.reset()
+            assert codes_of(x) == list(codes), 'the overflow action did not fold onto the codes'
+            return x
+        h = 0
     if h in (6, 7):
         lo = -(1 << (n - 1)) if signed else 0
         pad = [lo, (1 << (n - 1)) - 1 if signed else (1 << n) - 1]
